@@ -71,6 +71,12 @@ type Result struct {
 	StormToMs        int64 `json:"storm_of_discarded_shots_to_ms,omitempty"`
 	StormAcrossFlush int   `json:"storms_across_the_periodic_flush,omitempty"`
 	ElapsedMs        int64 `json:"run_ms,omitempty"`
+	// rounds in which the http gun section logged that it could not pre-resolve its target when it was decoded (so
+	// `dns-cache` stayed on and the clients dial through the DNS caching dialer), connections the http target accepted, and
+	// rounds in which it accepted more connections than there are instances while shots overlapped
+	PreResolveFailed int   `json:"rounds_target_not_pre_resolved,omitempty"`
+	Conns            int64 `json:"connections_accepted_by_target,omitempty"`
+	RedialOverlap    int   `json:"rounds_redialing_while_shots_overlap,omitempty"`
 }
 
 const (
@@ -114,9 +120,31 @@ func runRound(c Case, res *Result) {
 	defer b.cleanup()
 	res.File = b.text
 	var conf engine.Config
-	if err := pand.Decode(map[string]any{"pools": []any{b.pool}}, &conf); err != nil {
-		res.HarnessErr = fmt.Sprintf("generated pool config rejected: %v\n%s", err, b.text)
+	// what the components say through the global logger while the config is decoded (the http guns: a target that cannot be
+	// pre-resolved)
+	globalCore, globalLogs := observer.New(zapcore.WarnLevel)
+	restoreGlobal := zap.ReplaceGlobals(zap.New(globalCore))
+	derr := pand.Decode(map[string]any{"pools": []any{b.pool}}, &conf)
+	restoreGlobal()
+	if derr != nil {
+		res.HarnessErr = fmt.Sprintf("generated pool config rejected: %v\n%s", derr, b.text)
 		return
+	}
+	preResolveFailed := false
+	for _, e := range globalLogs.All() {
+		if strings.Contains(e.Message, "pre resolve failed") {
+			preResolveFailed = true
+		}
+	}
+	if preResolveFailed {
+		res.PreResolveFailed++
+	}
+	if b.up != nil {
+		// the target comes up between the reading of the config and the run
+		if err := b.up(); err != nil {
+			res.HarnessErr = err.Error()
+			return
+		}
 	}
 	pc := &conf.Pools[0]
 	gp := newGunProbes(viol)
@@ -189,7 +217,10 @@ func runRound(c Case, res *Result) {
 		if len(res.Logged) < 12 {
 			res.Logged = append(res.Logged, e.Level.String()+" "+msg)
 		}
-		if isTransportError(msg) {
+		if strings.Contains(msg, "missing address") {
+			// (net: "dial tcp: missing address") no load on the machine empties an address
+			viol.add("a gun dialled an empty address, the gun config names the target %v: %s %s", b.pool["gun"].(map[string]any)["target"], e.Level, msg)
+		} else if isTransportError(msg) {
 			transport++
 		} else if isDroppedInvocation(c, e.Level, msg) {
 			res.StepFailures++
@@ -227,6 +258,10 @@ func runRound(c Case, res *Result) {
 	}
 	served := b.finish()
 	res.Served += served
+	res.Conns += b.conns
+	if b.conns > res.InstancesStarted+1 && rep.MaxActive >= 2 {
+		res.RedialOverlap++
+	}
 	samples, tags, discardedSamples := readOutput(c, b.outFile, viol)
 	res.Samples += samples
 	if b.strict && samples != served+discarded {
@@ -668,6 +703,17 @@ func label(c Case, o *vf.Obs, res *Result) {
 		o.ClassIf(overlap && !p.Preload && p.Entries > 1, "big_body_shots_overlap_streamed_differing_entries")
 	}
 	o.ClassIf(res.ElapsedMs >= 1000, "run_longer_than_flush_period")
+	if c.httpGun() {
+		// the DNS caching dialer was in use for certain: the gun section said so in every round
+		cached := c.TargetBy == targetByNameLate && res.PreResolveFailed >= res.Rounds && res.Rounds > 0
+		o.ClassIf(cached, "dns_cache_on_target_not_pre_resolved")
+		o.ClassIf(cached && overlap, "dns_cache_on_and_shots_overlap")
+		o.ClassIf(cached && c.SharedClients > 0 && overlap, "dns_cache_on_shared_client_and_shots_overlap")
+		o.ClassIf(cached && c.SharedClients > 0 && res.RedialOverlap > 0, "dns_cache_on_shared_client_redialing_while_shots_overlap")
+		o.ClassIf(cached && c.SharedClients == 0 && res.RedialOverlap > 0, "dns_cache_on_own_clients_redialing_while_shots_overlap")
+		o.ClassIf(res.RedialOverlap > 0, "http_redialing_while_shots_overlap")
+		o.Note("connections_accepted", res.Conns)
+	}
 	o.ClassIf(c.Agg == "phout" && c.QueueSize > 0, fmt.Sprintf("phout_sample_queue_%d", c.QueueSize))
 	o.ClassIf(c.Agg == "phout" && c.QueueSize > 0 && overlap, "phout_small_queue_and_shots_overlap")
 	if c.storm() {
